@@ -129,7 +129,6 @@ def __sync__(
                 reflection_cache_unpacked,
                 database_config_unpacked,
             )
-            DBS = DBS.set(dbname, db)
         else:
             updates = {}
 
@@ -142,17 +141,24 @@ def __sync__(
 
             if updates:
                 db = db._replace(**updates)
-                DBS = DBS.set(dbname, db)
 
+        new_global_schema = GLOBAL_SCHEMA
         if global_schema is not None:
-            GLOBAL_SCHEMA = pickle.loads(global_schema)
+            new_global_schema = pickle.loads(global_schema)
 
+        new_instance_config = INSTANCE_CONFIG
         if system_config is not None:
-            INSTANCE_CONFIG = pickle.loads(system_config)
+            new_instance_config = pickle.loads(system_config)
 
     except Exception as ex:
         raise state.FailedStateSync(
             f'failed to sync worker state: {type(ex).__name__}({ex})') from ex
+
+    # Only update the state after everything has been unpacked: the server
+    # assumes that a failed sync has not changed what this worker holds.
+    DBS = DBS.set(dbname, db)
+    GLOBAL_SCHEMA = new_global_schema
+    INSTANCE_CONFIG = new_instance_config
 
     return db
 
